@@ -38,6 +38,40 @@ def policy_paths(ctx, meth, args, opaque_helpers=True, loop_bound=1):
     return ctx._cache[key]
 
 
+def size_measure(term):
+    """(coef, const, record) when term = coef * len(record.value) + const, else None"""
+    t = tform(term)
+    while isinstance(t, tuple) and t and t[0] == "as":
+        t = t[1]
+    if isinstance(t, tuple) and t and t[0] in ("call", "len"):
+        t = ("lin", ((t, 1),), 0)
+    if not (isinstance(t, tuple) and t and t[0] == "lin" and len(t[1]) == 1):
+        return None
+    (item, coef), const = t[1][0], t[2]
+    tgt = None
+    if isinstance(item, tuple) and item[0] == "call" and item[1].endswith("Bytes::len") and item[3]:
+        tgt = item[3][0]
+    elif isinstance(item, tuple) and item[0] == "len":
+        tgt = item[1]
+    if isinstance(tgt, tuple) and tgt[0] == "deref":
+        tgt = tgt[1]
+    if not (isinstance(tgt, tuple) and tgt[0] == "field" and tgt[2] == "value"):
+        return None
+    return coef, const, tgt[1]
+
+
+def record_measure(ctx):
+    """the accounting unit: Record::len() as an affine function of the value length"""
+    if "record_measure" not in ctx._cache:
+        rl = ctx.facts.one(CACHE.rsplit("::", 1)[0] + "::Record::len")
+        ms = set()
+        for p in Interp(ctx.facts).run(rl, [P("record")]):
+            m = size_measure(p.ret)
+            ms.add(m[:2] if m and m[2] in (P("record"), ("deref", P("record"))) else None)
+        ctx._cache["record_measure"] = ms.pop() if len(ms) == 1 else None
+    return ctx._cache["record_measure"]
+
+
 def r1(ctx):
     rep = Report("C14.R1", "policy set: incr_mem_usage(record.len()) on every path, before the inner set", floor=3)
     b, paths, I = policy_paths(ctx, rp("set"), ["self", "key", "record"])
@@ -52,7 +86,10 @@ def r1(ctx):
             arg = evs[0].args[1]
             a = atoms(arg)
             ok_arg = ("len", F(P("record"), "value")) in a or any(isinstance(x, tuple) and x[0] == "call" and (x[1].endswith("Record::len") or (x[1].endswith("Bytes::len") and x[3] == (F(P("record"), "value"),))) for x in a)
-            rep.check(ok_arg, "set:accounts-record-size", "accounted size <- record.len()", "RandomPolicy::set accounts %s, not the size of the record being stored" % short(arg, 80), b.loc())
+            ref = record_measure(ctx)
+            m = size_measure(arg)
+            ok_arg = ok_arg and ref is not None and m is not None and m[:2] == ref and m[2] == P("record")
+            rep.check(ok_arg, "set:accounts-record-size", "accounted size = Record::len(record) = %s" % (ref,), "RandomPolicy::set accounts %s, not Record::len() of the record being stored (%s as coefficient/constant of the value length): what is added differs from what the removing paths subtract and from the stored size, so the usage drifts from the content" % (short(arg, 80), ref), b.loc())
             s = evs[1]
             rep.check(tform(s.args[1]) == P("key") and tform(s.args[2]) == P("record") and tform(p.ret) == s.result, "set:forwards", "inner set(key, record), result returned", "RandomPolicy::set does not forward its key/record to the inner store or drops the result", b.loc())
     return rep
